@@ -18,7 +18,7 @@ import numpy as np
 from scipy import sparse
 
 from vlib import graphs
-from vlib.cases import Case, Sub, call as _call, evaluate as _evaluate
+from vlib.cases import Case, Sub, evaluate as _evaluate
 from vlib.core import enc_list, enc_bool, dec_list, VERIF
 from harness import _dendro as dd
 
@@ -41,6 +41,15 @@ ASSUMPTIONS = ['Louvain.fit_predict is a parameter of the Louvain tree builders 
                'on this platform (x86-64, SSE2 doubles, no FMA contraction in the compiled kernel) the chain of Paris is compared bit for bit; '
                'elsewhere the comparison would need the margins of DESIGN 8',
                'Paris is compared on IEEE doubles / floats bit for bit (Lean Float, Float32 = C double, float)']
+
+
+def _call(f):
+    """Run the implementation; every exception (RecursionError, MemoryError … included, not only the five classes of
+    the models) becomes the answer `err <class>`: on an admissible input that is a failure of the property."""
+    try:
+        return f()
+    except Exception as e:                                         # noqa: BLE001 - deliberate: nothing may escape as a tool failure
+        return 'err ' + type(e).__name__
 
 
 def _bits(x):
@@ -208,12 +217,6 @@ def case_split(d, n1, n2):
 # ---------------------------------------------------------------------------------------------------
 # algorithms
 # ---------------------------------------------------------------------------------------------------
-def _admissible(a):
-    a = sparse.csr_matrix(a)
-    n = a.shape[0] + (a.shape[1] if a.shape[0] != a.shape[1] else 0)
-    return a.nnz >= 1 and bool((a.data > 0).any()) and bool((a.data >= 0).all()) and n >= 2 and a.shape[0] >= 1 and a.shape[1] >= 1
-
-
 def _out_cases(alg_name, opts, a, alg, impl_state, sorted_expected, key, sig, desc, bipartite, nontriv):
     """spec cases on the fitted attributes of `alg` (or on the exception)."""
     out = []
@@ -255,7 +258,8 @@ def _out_cases(alg_name, opts, a, alg, impl_state, sorted_expected, key, sig, de
 
 
 def paris_model_line(a, weights, reorder, force_bipartite):
-    """The request line for the Lean model of Paris.fit: the library's own pre-processing, then bits of doubles."""
+    """The request line for the Lean model of Paris.fit: the library's own pre-processing applied to the object the
+    fit receives, then the stored entries as they are (unsorted, duplicated …) as bits of doubles."""
     from sknetwork.utils.format import get_adjacency, directed2undirected
     from sknetwork.utils.check import get_probs, is_symmetric
     adjacency, _ = get_adjacency(a, force_bipartite=force_bipartite)
@@ -314,7 +318,8 @@ def cases_paris(a, weights, reorder, force_bipartite=False, gname='', container=
         # the chain itself, on the same doubles
         full = alg.dendrogram_full_ if bip else alg.dendrogram_
         try:
-            line = paris_model_line(a, weights, reorder, force_bipartite)
+            # from the very object handed to fit (dtype, dense array, unsorted or duplicated CSR entries)
+            line = paris_model_line(_container(a, container), weights, reorder, force_bipartite)
         except Exception as e:                                     # the pre-processing replayed by the harness failed
             line = None
             if ctx is not None:
@@ -403,7 +408,10 @@ def cases_louvain(kind, a, opts, force_bipartite=False, container=None, refit=No
     n = adjacency.shape[0]
     tree = rec.get('tree')
     if tree is None:
-        return out
+        # the capture of get_dendrogram did not fire: the two run lines below would vanish silently
+        c = Case(key + ('tree-not-captured',), dict(sig, attr='tree'), None, 'err tree-not-captured', None, nontriv, desc)
+        c.tol = True
+        return out + [c]
     ttok = _tree_tok(tree)
     # the tree builder against the model, Louvain's answers replayed
     if kind == 'LouvainIteration':
@@ -494,9 +502,10 @@ def near_tie_cases(ctx, rng, count):
 def wide_range_cases(ctx, rng, count):
     """Paris on weighted graphs with a wide dynamic range: paths, stars, cycles and random graphs on 3-8 nodes whose
     edge weights are drawn from a palette of ordinary values, one or two of them multiplied by 10**k or 10**-k
-    (products of node weights leave the float32 range; totals leave it for |k| > 38). All four option pairs."""
+    (products of node weights leave the float32 range from 1e20 on and the double range from 1e154 on: `den = 0`,
+    similarity -inf, height inf). All four option pairs."""
     out = []
-    exps = [20, 25, 30, 35, 38.5, 45]
+    exps = [20, 25, 30, 38.5, 45, 100, 150, 160, 200, 300]
     for c in range(count):
         n = rng.randint(3, 8)
         kind = rng.choice(['path', 'star', 'cycle', 'random'])
@@ -590,6 +599,37 @@ def container_cases(ctx, rng, count):
     return out
 
 
+class Sub0:
+    def count(self, *a, **k):
+        pass
+
+
+def wide_cases(ctx):
+    """more than 1 000 non-singleton clusters at one level of the tree: a tree with 1 100 pairs for get_dendrogram,
+    and both Louvain fits on the perfect matching of 2 200 nodes (spec lines; the chain of calls that fails is in
+    postprocess.get_dendrogram)"""
+    out = []
+    tree = [[[2 * i], [2 * i + 1]] for i in range(1100)]
+    c = case_get_dendrogram(tree, 'wide')
+    c.sig = dict(c.sig, origin='wide')
+    out.append(c)
+    ctx.count('tree:wide 1100 pairs')
+    n = 2200
+    es = []
+    for i in range(n // 2):
+        es += [(2 * i, 2 * i + 1), (2 * i + 1, 2 * i)]
+    a = graphs.csr_from_edges(n, es, [1.0] * len(es))
+    from sknetwork.hierarchy import LouvainHierarchy, LouvainIteration
+    for kind, cls in (('LouvainHierarchy', LouvainHierarchy), ('LouvainIteration', LouvainIteration)):
+        alg = cls()
+        st = _call(lambda: (alg.fit(a.copy()), 'ok')[1])
+        sig = {'entry': kind, 'bipartite': False, 'shuffle': False, 'origin': 'wide'}
+        desc = {'f': kind, 'wide_matching': n, 'opts': {}}
+        out += _out_cases(kind, {}, a, alg, st, True, (kind, 'wide-matching', n), sig, desc, False, True)
+        ctx.count('graph:wide matching n=%d' % n)
+    return out
+
+
 def corpus_cases(ctx):
     p = os.path.join(VERIF, 'corpus', 'C07.jsonl')
     out = []
@@ -616,6 +656,8 @@ def cases_from_desc(desc):
     if f == 'Paris':
         return cases_paris(_gfrom(desc['graph']), desc['weights'], desc['reorder'], desc.get('force_bipartite', False),
                            container=desc.get('container'), refit=desc.get('refit'))
+    if f in ('LouvainHierarchy', 'LouvainIteration') and 'wide_matching' in desc:
+        return [c for c in wide_cases(Sub0()) if c.sig.get('entry') == f]
     if f in ('LouvainHierarchy', 'LouvainIteration'):
         return cases_louvain(f, _gfrom(desc['graph']), desc.get('opts', {}), desc.get('force_bipartite', False),
                              container=desc.get('container'), refit=desc.get('refit'))
@@ -690,6 +732,7 @@ def build_cases(ctx):
             cases += cases_louvain('LouvainIteration', a, {}, False)
         ctx.count('graph:palette ' + name.rstrip('0123456789'))
     cases += container_cases(ctx, rng, 60 if quick else 800)
+    cases += wide_cases(ctx)
     # near-ties: unweighted graphs on 7-9 nodes make many merges of equal height; the float32 similarities of
     # Paris then order a parent and its child by rounding noise (spec lines only: validity of dendrogram_)
     cases += near_tie_cases(ctx, rng, 3000 if quick else 40000)
@@ -722,7 +765,28 @@ def _same(c, model, impl, spec_ok):
     return False
 
 
+class _ClauseCtx:
+    """a failure of the specification carries the failing clause in its signature (`clause`)"""
+
+    def __init__(self, ctx):
+        object.__setattr__(self, '_ctx', ctx)
+
+    def __getattr__(self, name):
+        return getattr(object.__getattribute__(self, '_ctx'), name)
+
+    def __setattr__(self, name, value):
+        setattr(object.__getattribute__(self, '_ctx'), name, value)
+
+    def spec_fail(self, sig, case, detail):
+        if 'raised-on-admissible-input' in detail:
+            clause = 'raised ' + str(detail['raised-on-admissible-input'])
+        else:
+            clause = ' '.join(str(detail.get('spec_answer', '')).split(' ')[:2])
+        object.__getattribute__(self, '_ctx').spec_fail(dict(sig, clause=clause), case, detail)
+
+
 def evaluate(ctx, cases):
+    ctx = _ClauseCtx(ctx)
     for c in cases:
         if c.tol and not str(c.impl).startswith('ok'):
             ctx.spec_fail(c.sig, c.desc, {'raised-on-admissible-input': c.impl})
@@ -825,7 +889,6 @@ def replay(ctx, payload):
         case = payload['what_no_longer_checks'].get('case') or {}
     cs = cases_from_desc(case)
     if not cs:
-        # the payload does not name a case that can be rebuilt: say so instead of re-running something else
-        ctx.note('replay: the payload does not describe a re-runnable case; running the whole tier instead')
-        cs = build_cases(ctx)
+        from vlib.core import ToolFailure
+        raise ToolFailure('replay: the payload does not describe a case this harness can rebuild: %r' % (sorted(payload.keys()),))
     evaluate(ctx, cs)
